@@ -44,3 +44,24 @@ Section Key.
     option_map (cache_key dumps H prefix) (normalize (embed v)) = Some (cache_key dumps H prefix v).
   Proof. now rewrite normalize_embed. Qed.
 End Key.
+
+(* ---- a post_init that rewrites parameters (D12): with the key computed after post_init, the key is the key of the task as
+   it ends up, so the task reconstructed from its stored parameters (or built from the canonical spelling) has the same key *)
+Theorem key_describes_final (post_init : value -> option value) (keyf : value -> str) (rw : value -> value) (v : value) :
+  o_key (construct_rw post_init keyf KeyAfterPostInit rw v) = keyf (o_val (construct_rw post_init keyf KeyAfterPostInit rw v)).
+Proof. reflexivity. Qed.
+
+Theorem key_stable_rewrite (post_init : value -> option value) (keyf : value -> str) (rw : value -> value) (v : value) :
+  (forall x, rw (rw x) = rw x) ->
+  let o := construct_rw post_init keyf KeyAfterPostInit rw v in
+  o_key (construct_rw post_init keyf KeyAfterPostInit rw (o_val o)) = o_key o.
+Proof. intros Hid. cbn. now rewrite Hid. Qed.
+
+Theorem key_before_post_init_refuted : exists (post_init : value -> option value) (keyf : value -> str) (rw : value -> value) (v : value),
+  (forall x, rw (rw x) = rw x) /\
+  let o := construct_rw post_init keyf KeyBeforePostInit rw v in
+  o_key (construct_rw post_init keyf KeyBeforePostInit rw (o_val o)) <> o_key o.
+Proof.
+  exists (fun _ => None), (fun v => match v with VTuple [] => [1%N] | _ => [] end), (fun _ => VScal SNone), (VTuple []).
+  split; [reflexivity|]. cbn. discriminate.
+Qed.
